@@ -69,7 +69,7 @@ PROPS = {
     'C28': dict(
         title='Vacuum preserves the database',
         kani=[],
-        verus=['c28_vacuum'],
+        verus=['c28_vacuum', 'c28_roots'],
         pairs={},
         native={'mark_csr_segment_pages': ['c28_vacuum_after_compact'], 'encode_meta': ['c28_vacuum_after_compact'],
                 'mark_reachable_pages': ['c28_vacuum_after_compact'], 'mark_blob_chain': ['c28_vacuum_after_compact'],
